@@ -5,4 +5,4 @@ Require ExtrOcamlBasic.
 From JS Require Import Base Bytes Scanner ScanRun Directive Core Expand Entry Lazy OpenApi.
 From JS Require DirectiveTables.
 Extraction Blacklist String List Nat Bool.
-Extraction "model.ml" scan_case state_name bytes_of_string tree_case tree_case_b DirectiveTables.dir_keywords lazy_case to_openapi.
+Extraction "model.ml" scan_case state_name bytes_of_string tree_case tree_case_b DirectiveTables.dir_keywords lazy_case to_openapi placed_case.
